@@ -70,13 +70,20 @@ pub fn alias_tok(l: &AliasLimits) -> String {
 }
 
 pub fn one(sink: &mut Sink, text: &str, items: &str, budget: &Option<Budget>, limits: AliasLimits, stop: bool) {
-    let d = h::live_events_from_str(text, budget.clone(), limits, stop, 1_000_000);
+    let bt = match budget { None => "-".to_string(), Some(bd) => format!("0 {}", crate::c07::limits_tok(bd)) };
+    let d = match catch(|| h::live_events_from_str(text, budget.clone(), limits, stop, 1_000_000)) {
+        Ok(d) => d,
+        Err(msg) => {
+            sink.count("panic");
+            sink.case(&format!("pump drain {} {} {} {}", b(stop), bt, alias_tok(&limits), items), &format!("panic {}", hex(&msg)));
+            return;
+        }
+    };
     match &d.error {
         None => sink.count("end.eof"),
         Some(e) => sink.count(&format!("end.{}", crate::errs::pump_tok(e).split(' ').next().unwrap())),
     }
     if d.finish_error.is_some() { sink.count("finish.err"); }
-    let bt = match budget { None => "-".to_string(), Some(bd) => format!("0 {}", crate::c07::limits_tok(bd)) };
     sink.case(&format!("pump drain {} {} {} {}", b(stop), bt, alias_tok(&limits), items), &dump_tok(&d));
 }
 
